@@ -243,6 +243,16 @@ def build_cases(tier: str):
                 nmix += 1
                 cases.append(Case(pid, backend, text, md, {"k": "mixed-scope:" + ctx, "ndev": 0}))
                 pid += 1
+        # two partial values (First / index) in one expression or row; nested flattenings under every terminal
+        from mc.lang import partfam, smfam
+        nextra = 0
+        for fam, label in ((partfam, "two-partials"), (smfam, "flatten")):
+            for ctx, text in fam.queries(backend):
+                if text not in seen and (tier != "quick" or backend == "atlas" or ctx.split(":")[0] in ("ev-tuple", "el-tuple", "column", "first", "tuple")):
+                    seen.add(text)
+                    nextra += 1
+                    cases.append(Case(pid, backend, text, md, {"k": label + ":" + ctx, "ndev": 0}))
+                    pid += 1
         # explicit Aggregate(init, lambda acc, v: ...) with computed initial values and closures over enclosing loops
         from mc.lang import aggfam
         naggs = 0
@@ -263,7 +273,7 @@ def build_cases(tier: str):
                 cases.append(Case(pid, backend, text, md, {"k": "struct:" + ctx, "ndev": 0}))
                 pid += 1
         derived = sum(len(v) for v in g._memo.values())
-        gen_stats[backend] = {"skeletons": nsk, "programs": len(seen), "derived_subterms": derived, "argument_scope_programs": nargs, "explicit_aggregate_programs": naggs, "mixed_scope_programs": nmix, "intermediate_structure_programs": nstruct,
+        gen_stats[backend] = {"skeletons": nsk, "programs": len(seen), "derived_subterms": derived, "argument_scope_programs": nargs, "explicit_aggregate_programs": naggs, "mixed_scope_programs": nmix, "two_partials_and_flatten_programs": nextra, "intermediate_structure_programs": nstruct,
                               "bounds": {"k_d0": k0, "k_d1": k1, "k_d2": k2}}
     return cases, gen_stats
 
